@@ -32,7 +32,9 @@
 (*            [kind |-> "mac", addr (the address the MAC's lease is for)] |*)
 (*            [kind |-> "cid", cid]                                        *)
 (*   config   [ignQ, ignS (sets of patterns), client, flagQ, flagS,        *)
-(*             anon, qlogOn, statsOn, refuseAny]                           *)
+(*             anon, qlogOn, statsOn, refuseAny, extra (further persistent *)
+(*             clients [id, flagQ, flagS]; the most specific one owns a    *)
+(*             sender)]                                                    *)
 (*   query    [name, addr, cid, qt]                                        *)
 (***************************************************************************)
 EXTENDS Sequences, Naturals, FiniteSets
@@ -76,47 +78,68 @@ IdentsBy(P, a, cid) ==
 
 Idents(P, q) == IdentsBy(P, q.addr, q.cid)
 
+\* The registry of persistent clients of a configuration: the primary client
+\* with the configuration's two flags, plus the extra clients (each a record
+\* [id, flagQ, flagS] with its own fixed flags).
+Registry(c) == (IF c.client.kind = "none" THEN {}
+                ELSE {[id |-> c.client, flagQ |-> c.flagQ, flagS |-> c.flagS]}) \cup c.extra
+
+\* Several persistent clients may claim a sender; it belongs to the most
+\* specific one: ClientID, exact address, MAC, then the longest subnet.
+Rank(P) == CASE P.kind = "cid"  -> 1000
+             [] P.kind = "ip"   -> 900
+             [] P.kind = "mac"  -> 800
+             [] P.kind = "cidr" -> Len(P.bits)
+             [] OTHER           -> 0
+Claimants(c, a, cid) == {x \in Registry(c) : IdentsBy(x.id, a, cid)}
+Owners(c, a, cid) == {x \in Claimants(c, a, cid) : \A y \in Claimants(c, a, cid) : Rank(y.id) <= Rank(x.id)}
+
+\* Is the sender (address a, ClientID cid) a client marked to be ignored by
+\* the query log (w = "q") / the statistics (w = "s")?
+IgnBy(c, w, a, cid) == \E x \in Owners(c, a, cid) : IF w = "q" THEN x.flagQ ELSE x.flagS
+
 \* What is written for the client address of a query recorded under
 \* configuration c (anonymisation may be switched at run time; what counts is
 \* the setting in force when the record is made).
 StoredAddr(c, q) == IF c.anon THEN Anon(q.addr) ELSE q.addr
 
 \* ----------------------------------------------- the statement's decisions
-IgnoredClientQ(c, q) == c.flagQ /\ Idents(c.client, q)
-IgnoredClientS(c, q) == c.flagS /\ Idents(c.client, q)
+IgnoredClientQ(c, q) == IgnBy(c, "q", q.addr, q.cid)
+IgnoredClientS(c, q) == IgnBy(c, "s", q.addr, q.cid)
 
 ShouldLog(c, q)   == ~IgnoredClientQ(c, q) /\ ~IgnoreMatch(c.ignQ, q.name)
 ShouldCount(c, q) == ~IgnoredClientS(c, q) /\ ~IgnoreMatch(c.ignS, q.name)
 
-\* sa = the address as stored.  It no longer identifies the sender as client P ...
-Lost(P, q, sa) == Idents(P, q) /\ ~IdentsBy(P, sa, q.cid)
-\* ... or identifies a client the sender is not.  The statement forbids
+\* sa = the address as stored.  Looked up by it, the sender is no longer an
+\* ignored client although it is one ...
+Lost(c, w, q, sa) == IgnBy(c, w, q.addr, q.cid) /\ ~IgnBy(c, w, sa, q.cid)
+\* ... or is an ignored client although it is none.  The statement forbids
 \* recording ignored clients; it does not demand that everybody else IS
 \* recorded, so over-blocking is admissible ("any").
-Coll(P, q, sa) == ~Idents(P, q) /\ IdentsBy(P, sa, q.cid)
+Coll(c, w, q, sa) == ~IgnBy(c, w, q.addr, q.cid) /\ IgnBy(c, w, sa, q.cid)
 
-LostByAnon(c, q) == Lost(c.client, q, StoredAddr(c, q))
+LostByAnon(c, q) == Lost(c, "q", q, StoredAddr(c, q))
 
 \* Why a query must not be recorded / returned: N = name on the list,
 \* C = client marked, A = client marked and only identifiable by the address
 \* bits that are not in the stored address.
-Reasons(ign, flag, P, q, sa) ==
+Reasons(ign, w, c, q, sa) ==
     (IF IgnoreMatch(ign, q.name) THEN "N" ELSE "")
-      \o (IF flag /\ Idents(P, q) THEN (IF Lost(P, q, sa) THEN "A" ELSE "C") ELSE "")
+      \o (IF IgnBy(c, w, q.addr, q.cid) THEN (IF Lost(c, w, q, sa) THEN "A" ELSE "C") ELSE "")
 
 \* Verdicts: "no:<stage>:<reasons>" must be absent; "yes" expected present;
 \* "any" both admissible: the store is switched off (the statement does not
 \* say a disabled log records nothing -- only that ignored things are never
 \* recorded), refused ANY queries, over-blocking.
-RecVerdict(ign, flag, on, c, q) ==
+RecVerdict(ign, w, on, c, q) ==
     LET sa == StoredAddr(c, q)
-        r  == Reasons(ign, flag, c.client, q, sa) IN
+        r  == Reasons(ign, w, c, q, sa) IN
     IF r # "" THEN "no:R:" \o r
-    ELSE IF ~on \/ (q.qt = "ANY" /\ c.refuseAny) \/ (flag /\ Coll(c.client, q, sa)) THEN "any"
+    ELSE IF ~on \/ (q.qt = "ANY" /\ c.refuseAny) \/ Coll(c, w, q, sa) THEN "any"
     ELSE "yes"
 
-LogVerdict(c, q)   == RecVerdict(c.ignQ, c.flagQ, c.qlogOn, c, q)
-CountVerdict(c, q) == RecVerdict(c.ignS, c.flagS, c.statsOn, c, q)
+LogVerdict(c, q)   == RecVerdict(c.ignQ, "q", c.qlogOn, c, q)
+CountVerdict(c, q) == RecVerdict(c.ignS, "s", c.statsOn, c, q)
 
 \* An entry recorded under configuration rec, looked at through the log API
 \* under the current configuration cur.  It can only be re-identified by what
@@ -124,10 +147,10 @@ CountVerdict(c, q) == RecVerdict(c.ignS, c.flagS, c.statsOn, c, q)
 ApiVerdict(rec, cur, q) ==
     LET sa == StoredAddr(rec, q)
         r  == LogVerdict(rec, q)
-        s  == Reasons(cur.ignQ, cur.flagQ, cur.client, q, sa) IN
+        s  == Reasons(cur.ignQ, "q", cur, q, sa) IN
     IF r \notin {"yes", "any"} THEN r
     ELSE IF s # "" THEN "no:S:" \o s
-    ELSE IF r = "any" \/ (cur.flagQ /\ Coll(cur.client, q, sa)) THEN "any"
+    ELSE IF r = "any" \/ Coll(cur, "q", q, sa) THEN "any"
     ELSE "yes"
 
 IsNo(v) == v \notin {"yes", "any"}
